@@ -1460,12 +1460,13 @@ impl Interp {
                 },
                 *attach,
             ),
-            Act::Close { v, limit, .. } => (
+            Act::Close { v, t, limit } => (
                 eng::ExecuteMsg::ClosePosition {
                     vamm: vaddr(*v),
                     quote_asset_limit: u(*limit),
                 },
-                0,
+                // a native deployment's close comes with the closing fees attached (what a cw20 deployment would pull)
+                self.native_close_fees(*v, *t),
             ),
             Act::Deposit { v, amount, attach, .. } => (
                 eng::ExecuteMsg::DepositMargin {
@@ -1493,6 +1494,34 @@ impl Interp {
             Act::EngineAdmin { msg, attach, .. } => (msg.clone(), *attach),
             _ => return None,
         })
+    }
+
+    /// toll + spread a ClosePosition by trader `t` would be charged in the current state (native deployments: the amount to
+    /// attach): on the position's open notional for a whole close, on the quoted value of the closed part when the per-block
+    /// band turns the close partial
+    pub fn native_close_fees(&self, v: usize, t: usize) -> u128 {
+        if !self.w.cfg.native {
+            return 0;
+        }
+        let d = self.w.d;
+        let p = match self.w.position(v, &self.w.traders[t]) {
+            Some(p) if !p.size.is_zero() => p,
+            _ => return 0,
+        };
+        let vc = self.w.vamm_config(v);
+        let ec = self.w.engine_config();
+        let frac = ec.partial_liquidation_ratio.u128();
+        let over = self
+            .w
+            .query::<bool, _>(&self.w.vamms[v], &vamm::QueryMsg::IsOverFluctuationLimit { direction: p.direction.clone(), base_asset_amount: p.size.value })
+            .unwrap_or(false);
+        let base = if over && frac < d {
+            let part = mul_div_floor(p.size.value.u128(), frac, d);
+            self.output_amount(v, p.direction.clone(), part).unwrap_or(0)
+        } else {
+            p.notional.u128()
+        };
+        crate::refmath::fee(base, vc.toll_ratio.u128(), d) + crate::refmath::fee(base, vc.spread_ratio.u128(), d)
     }
 
     pub fn exec_act_fault(&mut self, act: &Act, fault_at: Option<usize>) -> TxRes {
